@@ -713,7 +713,7 @@ Proof.
   replace ((0 <=? t) && (t <? f_tracecount F)) with true
     by (symmetry; apply andb_true_iff; split; [apply Z.leb_le | apply Z.ltb_lt]; lia).
   cbn [negb]. destruct (planned_template _ _ _ _ _ _ Hwf P) as [tpl [Ht1 [Ht2 Ht3]]].
-  rewrite Ht1. cbn [bind]. rewrite (Ht3 f Hf).
+  rewrite Ht1. cbn [bind]. cbv zeta. rewrite (Ht3 f Hf).
   destruct (planned_kind_inv _ _ _ _ _ _ f P Hpos Hf) as [[Hi _]|[Hi Hself]]; rewrite Hi; [reflexivity|].
   unfold rd_resolve, rd_structured. rewrite Hst.
   assert (Hval : rd_value F (field_offset F Fn fields G f) t = Return (cap f t)).
@@ -1056,11 +1056,11 @@ Lemma gth_of_fields fields F la t (v : Z -> Z) tpl :
   hx_rd_index_ok t (f_tracecount F) = true ->
   gen_trace_header fields F la t = Return (map (fun f => (f, v f)) fields).
 Proof.
-  intros Hnd Ht Hk Hr Hok. unfold gen_trace_header. rewrite Hok, Ht. cbn [negb bind].
+  intros Hnd Ht Hk Hr Hok. unfold gen_trace_header. rewrite Hok, Ht. cbn [negb bind]. cbv zeta.
   rewrite (mapM_Return _ (fun kv => (fst kv, v (fst kv)))).
   - rewrite <- Hk, map_map. reflexivity.
   - intros kv Hkv. assert (Hf : In (fst kv) fields) by (rewrite <- Hk; apply in_map; exact Hkv).
-    specialize (Hr _ Hf). unfold read_field in Hr. rewrite Hok, Ht in Hr. cbn [negb bind] in Hr.
+    specialize (Hr _ Hf). unfold read_field in Hr. rewrite Hok, Ht in Hr. cbn [negb bind] in Hr. cbv zeta in Hr.
     rewrite (assocZ_In_NoDup tpl kv) in Hr by (try rewrite Hk; assumption). rewrite Hr. reflexivity.
 Qed.
 
@@ -1319,4 +1319,283 @@ Proof.
   - intros H -> Hi. apply memZ_false in H. rewrite H. rewrite Z.eqb_refl. apply wrap32_id. exact Hi.
   - intros H -> Hi. apply memZ_false in H. rewrite H. cbn. apply wrap32_id. exact Hi.
   - intros H H1 H2. apply memZ_false in H. rewrite H. apply Z.eqb_neq in H1, H2. rewrite H1, H2. reflexivity.
+Qed.
+
+(* ================================================================ I. irregular 3D sources (masked read path) *)
+Lemma asc_zrange_nat n : forall lo, asc (zrange_nat lo n).
+Proof.
+  induction n as [|n IH]; intro lo; cbn [zrange_nat]; [constructor|]. constructor; [apply IH|].
+  apply Forall_forall. intros x Hx. apply in_zrange_nat in Hx. lia.
+Qed.
+Lemma asc_zrange lo hi : asc (zrange lo hi).
+Proof. apply asc_zrange_nat. Qed.
+Lemma asc_map_mono (pos : Z -> Z) l : asc l -> (forall a b, In a l -> In b l -> a < b -> pos a < pos b) -> asc (map pos l).
+Proof.
+  induction 1 as [|x r Hs IH Hall]; intro Hm; cbn [map]; [constructor|]. constructor.
+  - apply IH. intros a b Ha Hb. apply Hm; right; assumption.
+  - apply Forall_forall. intros y Hy. apply in_map_iff in Hy. destruct Hy as [z [<- Hz]].
+    rewrite Forall_forall in Hall. apply Hm; [left; reflexivity | right; exact Hz | apply Hall; exact Hz].
+Qed.
+Lemma combine_map_filter {A} (q : A -> bool) (g : Z -> A) l :
+  map fst (filter (fun pv => q (snd pv)) (combine l (map g l))) = filter (fun p => q (g p)) l.
+Proof.
+  induction l as [|x r IH]; [reflexivity|]. cbn [map combine filter snd]. destruct (q (g x)); cbn [map fst]; rewrite IH; reflexivity.
+Qed.
+Lemma nth_error_zrange n t : 0 <= t < n -> nth_error (zrange 0 n) (Z.to_nat t) = Some t.
+Proof.
+  intro H. unfold zrange. rewrite (nth_error_nth' _ 0) by (rewrite zrange_nat_length; lia).
+  rewrite nth_zrange_nat by lia. f_equal. lia.
+Qed.
+
+Lemma planned_read_masked fields F Fn cap G padf (pos : Z -> Z) la t f :
+  wf_fields fields = true -> planned fields F Fn cap G padf ->
+  f_is3d F = true -> hx_rd_structured (f_tracecount F) (f_nil F) (f_nxl F) = false ->
+  (forall s, 0 <= s < f_tracecount F -> 0 <= pos s < G) ->
+  (forall s s', 0 <= s < s' -> s' < f_tracecount F -> pos s < pos s') ->
+  In hx_rd_mask_field fields -> Fn hx_rd_mask_field = (0, hx_rd_mask_field) ->
+  (forall s, 0 <= s < f_tracecount F -> cap hx_rd_mask_field (pos s) <> 0) ->
+  (forall p, (forall s, 0 <= s < f_tracecount F -> pos s <> p) -> cap hx_rd_mask_field p = 0) ->
+  0 <= t < f_tracecount F -> In f fields ->
+  read_field fields F la t f = Return (if is_inv (f, Fn f) then fst (Fn f) else cap f (pos t)).
+Proof.
+  intros Hwf P H3 Hst Hpos Hmono Hmf Hmself Hnz Hz Ht Hf.
+  destruct (wf_fields_facts _ Hwf) as [Hasc [Hnd [Hposf Hlen]]].
+  set (n := f_tracecount F) in *. set (mf := hx_rd_mask_field) in *.
+  unfold read_field. unfold hx_rd_index_ok. fold n.
+  replace ((0 <=? t) && (t <? n)) with true
+    by (symmetry; apply andb_true_iff; split; [apply Z.leb_le | apply Z.ltb_lt]; lia).
+  cbn [negb]. destruct (planned_template _ _ _ _ _ _ Hwf P) as [tpl [Ht1 [Ht2 Ht3]]].
+  rewrite Ht1. cbn [bind]. cbv zeta. rewrite (Ht3 f Hf).
+  destruct (planned_kind_inv _ _ _ _ _ _ f P Hposf Hf) as [[Hi _]|[Hi Hself]]; rewrite Hi; [reflexivity|].
+  pose proof (pl_G _ _ _ _ _ _ P) as HG1.
+  assert (HrdG : rd_G F = G).
+  { unfold rd_G. rewrite (pl_hel _ _ _ _ _ _ P). rewrite Z.mul_comm, Z.div_mul by lia. reflexivity. }
+  assert (Hval : forall g p, In g fields -> Fn g = (0, g) -> 0 <= p < G ->
+            rd_value F (field_offset F Fn fields G g) p = Return (cap g p)).
+  { intros g p Hg Hgs Hp. unfold rd_value. rewrite HrdG.
+    replace ((0 <=? p) && (p <? G)) with true
+      by (symmetry; apply andb_true_iff; split; [apply Z.leb_le | apply Z.ltb_lt]; lia).
+    apply (planned_word fields F Fn cap G padf); assumption. }
+  (* the mask *)
+  assert (Hmask : rd_mask F tpl = Return (map pos (zrange 0 n))).
+  { unfold rd_mask. fold mf. rewrite (Ht3 mf Hmf). rewrite Hmself.
+    rewrite is_inv_self by (specialize (Hposf mf Hmf); lia). rewrite HrdG.
+    rewrite (mapM_Return _ (cap mf)) by (intros p Hp; apply in_zrange in Hp; apply Hval; assumption).
+    cbn [bind]. f_equal. rewrite combine_map_filter. apply asc_ext_eq.
+    - apply asc_filter. apply asc_zrange.
+    - apply asc_map_mono; [apply asc_zrange|]. intros x y Hx Hy Hxy. apply in_zrange in Hx, Hy. apply Hmono; lia.
+    - intro p. rewrite filter_In, in_zrange, in_map_iff. unfold hx_rd_mask_rule. split.
+      + intros [Hp Hne]. apply negb_true_iff, Z.eqb_neq in Hne.
+        destruct (find (fun s => pos s =? p) (zrange 0 n)) as [s|] eqn:Ef.
+        * apply find_some in Ef. destruct Ef as [Hs He]. apply Z.eqb_eq in He. exists s. split; assumption.
+        * exfalso. apply Hne. apply Hz. intros s Hs He.
+          pose proof (find_none _ _ Ef s ltac:(apply in_zrange; exact Hs)) as Hc. cbv beta in Hc.
+          apply Z.eqb_neq in Hc. contradiction.
+      + intros [s [<- Hs]]. apply in_zrange in Hs. split; [apply Hpos; exact Hs|].
+        apply negb_true_iff, Z.eqb_neq. apply Hnz. exact Hs. }
+  unfold rd_resolve, hx_rd_via_arrays, rd_structured. fold n. rewrite H3, Hst. rewrite orb_true_r.
+  unfold rd_variant_elem, hx_rd_use_mask, rd_structured. fold n. rewrite H3, Hst. cbn [andb orb negb].
+  rewrite Hmask. cbn [bind]. rewrite nth_error_map, (nth_error_zrange n t Ht). cbn [option_map].
+  apply Hval; [exact Hf | exact Hself | apply Hpos; exact Ht].
+Qed.
+
+Section Irregular.
+  Variables (fields : list Z) (n_il n_xl bs0 n ndb : Z) (ili xli : Z -> Z) (h : Z -> Z -> Z).
+  Hypothesis Hwf : wf_fields fields = true.
+  Hypothesis Hmf : In hx_rd_mask_field fields.
+  Hypothesis Hok : irregular_ok hx_rd_mask_field n_il n_xl bs0 n ili xli h.
+  Let ge := geo_irregular n_il n_xl bs0 n ili xli.
+  Let pos := fun t => xli t + ili t * n_xl.
+  Let cap := capture (ge_ts ge) (ge_slot ge) h.
+  Let G := n_il * n_xl.
+
+  Lemma irr_pos_range s : 0 <= s < n -> 0 <= pos s < G.
+  Proof.
+    destruct Hok as [H1 [H2 [H3 [H4 [H5 _]]]]]. intro Hs. destruct (H5 s Hs) as [Hi Hx]. unfold pos, G. nia.
+  Qed.
+  Lemma irr_cap_at f s : 0 <= s < n -> cap f (pos s) = h s f.
+  Proof.
+    destruct Hok as [H1 [H2 [H3 [H4 [H5 [H6 _]]]]]]. intro Hs. unfold cap, ge, geo_irregular, pos. cbn [ge_ts ge_slot].
+    rewrite <- (slot_irregular_eq n_xl bs0 ili xli s) by lia. apply capture_at; [apply in_zrange; exact Hs|].
+    intros s' Hs' He. apply in_zrange in Hs'. rewrite !slot_irregular_eq in He by lia.
+    destruct (Z.lt_trichotomy s' s) as [Hlt|[Heq|Hgt]]; [|exact Heq|].
+    - specialize (H6 s' s ltac:(lia) ltac:(lia)). lia.
+    - specialize (H6 s s' ltac:(lia) ltac:(lia)). lia.
+  Qed.
+  Lemma irr_cap_miss f p : (forall s, 0 <= s < n -> pos s <> p) -> cap f p = 0.
+  Proof.
+    destruct Hok as [H1 [H2 [H3 _]]]. intro Hm. unfold cap, ge, geo_irregular. cbn [ge_ts ge_slot]. apply capture_miss.
+    intros s Hs. apply in_zrange in Hs. rewrite slot_irregular_eq by lia. apply Hm. exact Hs.
+  Qed.
+
+  Lemma irr_read md Fn la t f :
+    planned fields (write_geo md fields ge ndb h) Fn cap G hx_wr_pad ->
+    Fn hx_rd_mask_field = (0, hx_rd_mask_field) ->
+    0 <= t < n -> In f fields ->
+    read_field fields (write_geo md fields ge ndb h) la t f = Return (if is_inv (f, Fn f) then fst (Fn f) else h t f).
+  Proof.
+    intros P Hself Ht Hf. rewrite <- (irr_cap_at f t Ht).
+    destruct Hok as [H1 [H2 [H3 [H4 [H5 [H6 [H7 H8]]]]]]].
+    destruct (segy_write_proj md fields (ge_is3d ge) (ge_nil ge) (ge_nxl ge) (ge_n ge) (ge_G ge) ndb h cap)
+      as [P1 [P2 [P3 [P4 P5]]]].
+    unfold write_geo in P |- *. fold cap in P |- *.
+    set (F := segy_write md fields (ge_is3d ge) (ge_nil ge) (ge_nxl ge) (ge_n ge) (ge_G ge) ndb h cap) in *.
+    change (ge_is3d ge) with true in P1. change (ge_n ge) with n in P2. change (ge_nil ge) with n_il in P3.
+    change (ge_nxl ge) with n_xl in P4.
+    assert (A2 : hx_rd_structured (f_tracecount F) (f_nil F) (f_nxl F) = false).
+    { rewrite P2, P3, P4. unfold hx_rd_structured. apply Z.eqb_neq. lia. }
+    assert (A3 : forall s, 0 <= s < f_tracecount F -> 0 <= pos s < G) by (rewrite P2; apply irr_pos_range).
+    assert (A4 : forall s s', 0 <= s < s' -> s' < f_tracecount F -> pos s < pos s').
+    { rewrite P2. intros s s' Hs Hs'. apply H6; assumption. }
+    assert (A5 : forall s, 0 <= s < f_tracecount F -> cap hx_rd_mask_field (pos s) <> 0).
+    { rewrite P2. intros s Hs. rewrite irr_cap_at by exact Hs. apply H7. exact Hs. }
+    assert (A6 : forall p, (forall s, 0 <= s < f_tracecount F -> pos s <> p) -> cap hx_rd_mask_field p = 0).
+    { rewrite P2. apply irr_cap_miss. }
+    assert (A7 : 0 <= t < f_tracecount F) by (rewrite P2; exact Ht).
+    exact (planned_read_masked fields F Fn cap G hx_wr_pad pos la t f Hwf P P1 A2 A3 A4 Hmf Hself A5 A6 A7 Hf).
+  Qed.
+
+  Lemma irr_hel : (if ge_is3d ge then hx_hel_3d (ge_nxl ge) (ge_nil ge) else hx_hel_2d (ge_n ge)) = 4 * ge_G ge.
+  Proof. unfold ge, geo_irregular. cbn [ge_is3d ge_nxl ge_nil ge_G]. unfold hx_irr_array_len. apply hel_3d_eq. Qed.
+  Lemma irr_G1 : 1 <= ge_G ge.
+  Proof. destruct Hok as [H1 [H2 _]]. unfold ge, geo_irregular. cbn [ge_G]. unfold hx_irr_array_len. nia. Qed.
+
+  Theorem irregular_exhaustive_preserves_p la t f : 0 <= t < n -> In f fields ->
+    read_field fields (write_geo Exhaustive fields ge ndb h) la t f = Return (h t f).
+  Proof.
+    intros Ht Hf. destruct (wf_fields_facts _ Hwf) as [_ [_ [Hpos _]]].
+    rewrite (irr_read Exhaustive (fun f => (0, f))); try assumption; try reflexivity.
+    - rewrite is_inv_self; [reflexivity | specialize (Hpos f Hf); lia].
+    - apply planned_exhaustive; first [exact Hwf | apply irr_hel | apply irr_G1].
+  Qed.
+
+  Theorem irregular_thorough_preserves_p la t f : 0 <= t < n -> In f fields ->
+    read_field fields (write_geo Thorough fields ge ndb h) la t f = Return (h t f).
+  Proof.
+    intros Ht Hf. destruct (wf_fields_facts _ Hwf) as [_ [_ [Hpos _]]].
+    assert (Hmask_stored : th_fn (ge_G ge) cap hx_rd_mask_field = (0, hx_rd_mask_field)).
+    { unfold th_fn. destruct (all_equal (ge_G ge) (cap hx_rd_mask_field)) eqn:Ea; [exfalso|reflexivity].
+      destruct Hok as [H1 [H2 [H3 [H4 [H5 [H6 [H7 [p0 [Hp0 Hhole]]]]]]]]].
+      pose proof (all_equal_spec _ _ Ea p0 Hp0) as E1.
+      pose proof (all_equal_spec _ _ Ea (pos 0) (irr_pos_range 0 ltac:(lia))) as E2.
+      rewrite irr_cap_miss in E1 by (intros s Hs; apply Hhole; exact Hs).
+      rewrite irr_cap_at in E2 by lia. apply (H7 0 ltac:(lia)). congruence. }
+    rewrite (irr_read Thorough (th_fn (ge_G ge) cap)); try assumption.
+    - unfold th_fn. destruct (all_equal (ge_G ge) (cap f)) eqn:Ea.
+      + rewrite is_inv_const. cbn [fst]. f_equal.
+        rewrite <- (all_equal_spec _ _ Ea (pos t) (irr_pos_range t Ht)). apply irr_cap_at. exact Ht.
+      + rewrite is_inv_self; [reflexivity | specialize (Hpos f Hf); lia].
+    - apply planned_thorough; first [exact Hwf | apply irr_hel | apply irr_G1].
+  Qed.
+End Irregular.
+
+Theorem irregular_exhaustive_preserves fields n_il n_xl bs0 n ndb ili xli h la t f :
+  wf_fields fields = true -> In hx_rd_mask_field fields ->
+  irregular_ok hx_rd_mask_field n_il n_xl bs0 n ili xli h -> 0 <= t < n -> In f fields ->
+  read_field fields (write_geo Exhaustive fields (geo_irregular n_il n_xl bs0 n ili xli) ndb h) la t f = Return (h t f).
+Proof. intros. apply irregular_exhaustive_preserves_p; assumption. Qed.
+Theorem irregular_thorough_preserves fields n_il n_xl bs0 n ndb ili xli h la t f :
+  wf_fields fields = true -> In hx_rd_mask_field fields ->
+  irregular_ok hx_rd_mask_field n_il n_xl bs0 n ili xli h -> 0 <= t < n -> In f fields ->
+  read_field fields (write_geo Thorough fields (geo_irregular n_il n_xl bs0 n ili xli) ndb h) la t f = Return (h t f).
+Proof. intros. apply irregular_thorough_preserves_p; assumption. Qed.
+
+(* a field the table holds as a constant reads back as that constant on any file, whatever the geometry *)
+Lemma planned_read_const fields F Fn cap G padf la t f :
+  wf_fields fields = true -> planned fields F Fn cap G padf -> 0 <= t < f_tracecount F -> In f fields ->
+  is_inv (f, Fn f) = true -> read_field fields F la t f = Return (fst (Fn f)).
+Proof.
+  intros Hwf P Ht Hf Hi. unfold read_field, hx_rd_index_ok.
+  replace ((0 <=? t) && (t <? f_tracecount F)) with true
+    by (symmetry; apply andb_true_iff; split; [apply Z.leb_le | apply Z.ltb_lt]; lia).
+  cbn [negb]. destruct (planned_template _ _ _ _ _ _ Hwf P) as [tpl [Ht1 [Ht2 Ht3]]].
+  rewrite Ht1. cbn [bind]. cbv zeta. rewrite (Ht3 f Hf), Hi. reflexivity.
+Qed.
+
+Lemma pairs_of_no_coinciding fields n h : no_coinciding_pair fields n h = true ->
+  forall f g, In f fields -> In g fields -> f <> g ->
+    hx_cls_variant (h 0 f) (h (py_index n hx_last_index) f) = true ->
+    hx_cls_variant (h 0 g) (h (py_index n hx_last_index) g) = true ->
+    hx_cls_same (h 0 f) (h (py_index n hx_last_index) f) (h 0 g) (h (py_index n hx_last_index) g) = false.
+Proof.
+  intros Hp a b Ha Hb Hab Hva Hvb. rewrite py_index_last in *. unfold no_coinciding_pair in Hp.
+  rewrite forallb_forall in Hp. specialize (Hp a Ha). rewrite forallb_forall in Hp. specialize (Hp b Hb).
+  unfold hx_cls_variant in Hva, Hvb. unfold hx_cls_same.
+  destruct (Z.eqb_spec a b) as [E|E]; [contradiction|].
+  destruct (h 0 a =? h (n - 1) a); [discriminate|]. destruct (h 0 b =? h (n - 1) b); [discriminate|].
+  cbn [orb] in Hp. apply negb_true_iff in Hp. exact Hp.
+Qed.
+
+Section Irregular2.
+  Variables (fields : list Z) (n_il n_xl bs0 n ndb : Z) (ili xli : Z -> Z) (h : Z -> Z -> Z).
+  Hypothesis Hwf : wf_fields fields = true.
+  Hypothesis Hmf : In hx_rd_mask_field fields.
+  Hypothesis Hok : irregular_ok hx_rd_mask_field n_il n_xl bs0 n ili xli h.
+  Let ge := geo_irregular n_il n_xl bs0 n ili xli.
+  Let cap := capture (ge_ts ge) (ge_slot ge) h.
+
+  Theorem irregular_strip_reads_zero_p la t f : 0 <= t < n -> In f fields ->
+    read_field fields (write_geo Strip fields ge ndb h) la t f = Return 0.
+  Proof.
+    intros Ht Hf.
+    destruct (segy_write_proj Strip fields (ge_is3d ge) (ge_nil ge) (ge_nxl ge) (ge_n ge) (ge_G ge) ndb h cap)
+      as [_ [P2 _]].
+    unfold write_geo. fold cap.
+    rewrite (planned_read_const fields _ (fun _ => (0, 0)) cap (ge_G ge) hx_wr_pad); try assumption;
+      first [ reflexivity
+            | apply planned_strip; first [exact Hwf | apply irr_hel | apply (irr_G1 n_il n_xl bs0 n ili xli h Hok)]
+            | rewrite P2; exact Ht
+            | apply is_inv_const ].
+  Qed.
+
+  Theorem irregular_heuristic_preserves_p la t f :
+    const_or_ends_differ fields n h = true -> no_coinciding_pair fields n h = true ->
+    h 0 hx_rd_mask_field <> h (n - 1) hx_rd_mask_field ->
+    0 <= t < n -> In f fields ->
+    read_field fields (write_geo Heuristic fields ge ndb h) la t f = Return (h t f).
+  Proof.
+    intros Hc Hp Hmv Ht Hf. destruct (wf_fields_facts _ Hwf) as [_ [_ [Hpos _]]].
+    pose proof (pairs_of_no_coinciding fields n h Hp) as Hpairs.
+    rewrite (irr_read fields n_il n_xl bs0 n ndb ili xli h Hwf Hmf Hok Heuristic
+               (heur_fn (h 0) (h (py_index n hx_last_index)))); try assumption.
+    - unfold heur_fn. destruct (hx_cls_variant (h 0 f) (h (py_index n hx_last_index) f)) eqn:Ev.
+      + rewrite is_inv_self; [reflexivity | specialize (Hpos f Hf); lia].
+      + rewrite is_inv_const. cbn [fst]. f_equal.
+        unfold const_or_ends_differ in Hc. rewrite forallb_forall in Hc. specialize (Hc f Hf).
+        rewrite py_index_last in Ev. unfold hx_cls_variant in Ev. apply negb_false_iff in Ev. rewrite Ev in Hc.
+        cbn [negb] in Hc. rewrite orb_false_r in Hc. unfold all_traces in Hc. rewrite forallb_forall in Hc.
+        symmetry. apply Z.eqb_eq. apply Hc. apply in_zrange. exact Ht.
+    - apply planned_heuristic; first [exact Hwf | apply irr_hel | apply (irr_G1 n_il n_xl bs0 n ili xli h Hok) | exact Hpairs].
+    - unfold heur_fn. rewrite py_index_last. unfold hx_cls_variant.
+      apply Z.eqb_neq in Hmv. rewrite Hmv. reflexivity.
+  Qed.
+End Irregular2.
+
+Theorem irregular_heuristic_preserves fields n_il n_xl bs0 n ndb ili xli h la t f :
+  wf_fields fields = true -> In hx_rd_mask_field fields ->
+  irregular_ok hx_rd_mask_field n_il n_xl bs0 n ili xli h ->
+  const_or_ends_differ fields n h = true -> no_coinciding_pair fields n h = true ->
+  h 0 hx_rd_mask_field <> h (n - 1) hx_rd_mask_field ->
+  0 <= t < n -> In f fields ->
+  read_field fields (write_geo Heuristic fields (geo_irregular n_il n_xl bs0 n ili xli) ndb h) la t f = Return (h t f).
+Proof. intros. apply irregular_heuristic_preserves_p; assumption. Qed.
+Theorem irregular_strip_reads_zero fields n_il n_xl bs0 n ndb ili xli h la t f :
+  wf_fields fields = true -> In hx_rd_mask_field fields ->
+  irregular_ok hx_rd_mask_field n_il n_xl bs0 n ili xli h -> 0 <= t < n -> In f fields ->
+  read_field fields (write_geo Strip fields (geo_irregular n_il n_xl bs0 n ili xli) ndb h) la t f = Return 0.
+Proof. intros. apply irregular_strip_reads_zero_p; assumption. Qed.
+
+(* a concrete irregular source (used by Props/C04.v for non-vacuity) *)
+Ltac cases4 t :=
+  let H := fresh in assert (H : t = 0 \/ t = 1 \/ t = 2 \/ t = 3) by lia; destruct H as [-> | [-> | [-> | -> ]]].
+Ltac decide_num := vm_compute; repeat split; first [discriminate | reflexivity | (intro; discriminate)].
+Lemma irregular_example_ok :
+  irregular_ok hx_rd_mask_field 2 3 4 4 (fun t => nth (Z.to_nat t) [0; 0; 1; 1] 0) (fun t => nth (Z.to_nat t) [0; 2; 0; 2] 0)
+               (hdr_of_cols [(189, [10; 10; 13; 13]); (193, [20; 24; 20; 24])]).
+Proof.
+  unfold irregular_ok. split; [lia|]. split; [lia|]. split; [lia|]. split; [lia|].
+  split. { intros t Ht. cases4 t; decide_num. }
+  split. { intros s t Hs Ht. cases4 t; cases4 s; try lia; decide_num. }
+  split. { intros t Ht. cases4 t; decide_num. }
+  exists 1. split; [lia|]. intros t Ht. cases4 t; decide_num.
 Qed.
